@@ -293,3 +293,160 @@ def r14_repr(ctx):
 
 
 RULES = [('R14-str', r14_str), ('R14-dict', r14_dict), ('R14-errors', r14_errors), ('R14-repr', r14_repr)]
+
+
+# ----------------------------------------------------------------------------- symbolic eval(repr(x))
+def _to_source(s):
+    """SStr -> (python source with placeholders, {placeholder: symbolic value})."""
+    ss = strdom.to_sstr(s)
+    if ss is None:
+        return None, None
+    out, table = [], {}
+    for seg in ss.segs:
+        if isinstance(seg, str):
+            out.append(seg)
+        else:
+            nm = f'__SYM{len(table)}__'
+            table[nm] = seg
+            out.append(nm)
+    return ''.join(out), table
+
+
+def _node_matches(node, want, table):
+    """Does the parsed expression node denote the abstract value `want`?"""
+    if isinstance(node, ast.Name) and node.id in table:
+        seg = table[node.id]
+        if isinstance(seg, strdom.Dec):
+            return wire.value_equal(seg.v, want)
+        if isinstance(seg, strdom.Flt):
+            return seg.f is want
+        if isinstance(seg, strdom.StrRepr):
+            return seg.s is want
+        return False
+    if isinstance(node, ast.UnaryOp) and isinstance(node.op, ast.USub) and isinstance(node.operand, ast.Constant):
+        return isinstance(want, (int, float)) and -node.operand.value == want
+    if isinstance(node, ast.Constant):
+        w = want.const if isinstance(want, AV) and want.is_const else want
+        return type(node.value) is type(w) and node.value == w
+    if isinstance(node, (ast.Tuple, ast.List)):
+        items = want.items if isinstance(want, AList) else list(want) if isinstance(want, (tuple, list)) else None
+        return items is not None and len(items) == len(node.elts) and all(_node_matches(n, w, table) for n, w in zip(node.elts, items))
+    if isinstance(node, ast.Call):
+        return _call_matches(node, want, table)
+    return False
+
+
+def _call_matches(node, obj, table):
+    """node is ClassName(...) that would rebuild the abstract object."""
+    if isinstance(obj, AList) and getattr(obj, 'cls', None) is not None:        # MidiTrack([...]) / MidiTrack()
+        if not (isinstance(node.func, ast.Name) and node.func.id == obj.cls.name and not node.keywords):
+            return False
+        if not obj.items:
+            return len(node.args) == 0 or (len(node.args) == 1 and isinstance(node.args[0], ast.List) and not node.args[0].elts)
+        return len(node.args) == 1 and isinstance(node.args[0], ast.List) and len(node.args[0].elts) == len(obj.items) and \
+            all(_node_matches(n, w, table) for n, w in zip(node.args[0].elts, obj.items))
+    if not isinstance(obj, AObj) or obj.cls is None or not isinstance(node.func, ast.Name) or node.func.id != obj.cls.name:
+        return False
+    attrs = dict(obj.attrs)
+    if obj.cls.name in ('UnknownMetaMessage', 'FrozenUnknownMetaMessage'):
+        kw = {k.arg: k.value for k in node.keywords}
+        if node.args or set(kw) != {'type_byte', 'data', 'time'}:
+            return False
+        return all(_node_matches(kw[k], attrs[k], table) for k in kw)
+    if obj.cls.name == 'MidiFile':
+        kw = {k.arg: k.value for k in node.keywords}
+        ok = not node.args and _node_matches(kw.get('type'), attrs['type'], table) and _node_matches(kw.get('ticks_per_beat'), attrs['ticks_per_beat'], table)
+        tr = attrs['tracks'].items
+        if not tr:
+            return ok and set(kw) == {'type', 'ticks_per_beat'}
+        return ok and set(kw) == {'type', 'ticks_per_beat', 'tracks'} and isinstance(kw['tracks'], ast.List) and len(kw['tracks'].elts) == len(tr) \
+            and all(_node_matches(n, w, table) for n, w in zip(kw['tracks'].elts, tr))
+    # Message / MetaMessage and frozen variants: ClassName('type', name=value, ..., time=...)
+    if len(node.args) != 1 or not isinstance(node.args[0], ast.Constant) or node.args[0].value != attrs.get('type'):
+        return False
+    kw = {k.arg: k.value for k in node.keywords}
+    want = {k: v for k, v in attrs.items() if k != 'type'}
+    return set(kw) == set(want) and all(_node_matches(kw[k], want[k], table) for k in kw)
+
+
+def r14_repr_eval(ctx):
+    """repr(x) is an expression that rebuilds x: the repr text is computed in the string domain, parsed with `ast`,
+    and matched against the object's class and attributes (symbolic values as placeholders)."""
+    ai = make_interp(ctx)
+    cls = ctx.p.cls(MSG, 'Message')
+    n = 0
+    objs = []
+    for status, t, names, ln in reference.MIDI_SPECS:
+        if t == 'sysex':
+            for k in (0, 1, 3):
+                objs.append((f'Message(sysex[{k}])', lambda t=t, k=k: wire.make_message(ctx, t, {'data': AList([smf.sym(f'd{i}', 127) for i in range(k)], 'tuple')}, smf.sym('time', 10 ** 9))))
+        else:
+            objs.append((f'Message({t})', lambda t=t: wire.make_message(ctx, t, sample_attrs(t), strdom.FloatSym('time') if t == 'note_on' else smf.sym('time', 10 ** 9))))
+    objs.append(('Message(negative const)', lambda: wire.make_message(ctx, 'pitchwheel', {'channel': 0, 'pitch': -8192}, -1.5)))
+    objs.append(('MetaMessage(set_tempo)', lambda: wire.make_meta(ai, ctx, 'set_tempo', {'tempo': smf.sym('tempo', 0xffffff)}, smf.sym('time', 10 ** 9))))
+    objs.append(('MetaMessage(track_name)', lambda: wire.make_meta(ai, ctx, 'track_name', {'name': wire.StrSym('N')}, 0)))
+    objs.append(('MetaMessage(text literal)', lambda: wire.make_meta(ai, ctx, 'text', {'text': "it's"}, 0)))
+    objs.append(('MetaMessage(key_signature)', lambda: wire.make_meta(ai, ctx, 'key_signature', {'key': 'F#m'}, 3)))
+    objs.append(('MetaMessage(end_of_track)', lambda: wire.make_meta(ai, ctx, 'end_of_track', {}, smf.sym('time', 10 ** 9))))
+    objs.append(('MetaMessage(smpte_offset)', lambda: wire.make_meta(ai, ctx, 'smpte_offset', {'frame_rate': 29.97, 'hours': 1, 'minutes': smf.sym('m', 59), 'seconds': 0, 'frames': 0, 'sub_frames': 0}, 0)))
+    um = ctx.p.cls(wire.META_MOD, 'UnknownMetaMessage')
+    objs.append(('UnknownMetaMessage', lambda: AObj(um, {'type': 'unknown_meta', 'type_byte': 0x60, 'data': AList([smf.sym('u0', 255), smf.sym('u1', 255)], 'tuple'), 'time': smf.sym('time', 10 ** 9)})))
+    objs.append(('UnknownMetaMessage(empty)', lambda: AObj(um, {'type': 'unknown_meta', 'type_byte': 0x0a, 'data': (), 'time': 0})))
+    fz = ctx.p.func('mido.frozen', 'freeze_message')
+
+    def frozen(f):
+        return lambda: ai.call_function(fz, [f()], {})
+    objs.append(('FrozenMessage', frozen(objs[1][1])))
+    objs.append(('FrozenMetaMessage', frozen(lambda: wire.make_meta(ai, ctx, 'set_tempo', {'tempo': smf.sym('tempo', 0xffffff)}, 0))))
+    objs.append(('FrozenUnknownMetaMessage', frozen(lambda: AObj(um, {'type': 'unknown_meta', 'type_byte': 0x60, 'data': AList([smf.sym('u0', 255)], 'tuple'), 'time': 0}))))
+    trk = ctx.p.cls(wire.TR_MOD, 'MidiTrack')
+
+    def track(k):
+        def f():
+            r = AList([wire.make_message(ctx, 'note_on', {'channel': 0, 'note': smf.sym(f'n{i}', 127), 'velocity': 64}, smf.sym(f't{i}', 1000)) for i in range(k)], 'MidiTrack')
+            r.cls = trk
+            return r
+        return f
+    for k in (0, 1, 2, 3):
+        objs.append((f'MidiTrack[{k} messages]', track(k)))
+    mfc = ctx.p.cls(smf.MF, 'MidiFile')
+    from ..fold import ClassRef as _CR
+    for nt in (0, 1, 2):
+        objs.append((f'MidiFile[{nt} tracks]', lambda nt=nt: ai.apply(_CR(mfc), [], {'type': 1, 'ticks_per_beat': smf.sym('tpb', 32766, 1),
+                                                                                     'tracks': AList([track(2 - i)() for i in range(nt)], 'list')}, None)))
+    for label, factory in objs:
+        n += 1
+        holder = {}
+
+        def thunk():
+            o = factory()
+            holder['o'] = o
+            return strdom.render_repr(o, ai)
+        outs = ai.explore(thunk)
+        o = holder.get('o')
+        c = getattr(o, 'cls', None)
+        o2, rp = ctx.p.lookup_method(c, '__repr__') if c is not None else (None, None)
+        w = ctx.where(rp) if rp is not None else 'mido: __repr__'
+        cons = f'{rp.qname if rp else label}::evaluable'
+        if len(outs) != 1 or outs[0].kind != 'return' or outs[0].value is None:
+            ctx.fail('R14.1', f'eval(repr({label}))', w, f'repr cannot be computed: {outs}', construct=cons)
+            continue
+        src, table = _to_source(outs[0].value)
+        ok = src is not None
+        why = f'repr is {outs[0].value!r}'
+        if ok:
+            try:
+                node = ast.parse(src, mode='eval').body
+                ok = _node_matches(node, o, table)
+                if not ok:
+                    why = f'repr text {src!r} does not rebuild the object (class, attribute names or values differ)'
+            except SyntaxError as e:
+                ok = False
+                why = f'repr text {src!r} is not a Python expression ({e.msg})'
+        ctx.require(ok, 'R14.1', f'eval(repr({label}))', w, why, construct=cons)
+    ctx.floor('R14.1-eval', n, 39)
+    for q in ai.inlined:
+        ctx.functions.add(q)
+
+
+RULES.append(('R14-repr-eval', r14_repr_eval))
